@@ -3,11 +3,14 @@
 Walk.tla (mode print) prescribes, for every instance of every node kind, the sequence of markers the printer
 owes (free-floating token, token, child, separators interleaved) and where an absent token may be replaced by
 its canonical lexeme (Lexemes.tla) or nothing.  Each instance is built from the real pkg/ast types and printed
-by the real printer; the output is tokenised back into markers and compared with the prescription."""
+by the real printer; the output is tokenised back into markers and compared with the prescription.
+PrinterOut.tla specifies the output stage below the walk (write / writeToken / StmtInlineHtml: when "<?php ",
+a space or "?>" is put in front of a chunk; TLC checks NoGlue, Minimal, EveryChunkOnce, SourceVerbatim); every
+behaviour up to the bound is replayed on the real printer through a recording io.Writer, Write call by Write call."""
 import json
 import re
 
-from . import core, walk, inputs
+from . import core, walk, inputs, printerout
 
 MK = re.compile(r"\{#([TFN])(\d+)\.(\d+)#\}")
 WORD = re.compile(r"[A-Za-z0-9_\x80-\xff]")
@@ -101,10 +104,22 @@ def run(tier):
             check.violation({"class": cls, "kind": o["kind"], "slot": name},
                             {"instance": o, "observed_output": r["out"], "slot": name})
     check.sample({"direction": "spec->impl", "instance": inst[len(inst) // 3]})
+    # the output stage (PrinterOut.tla): which chunk gets an open tag / a space / a close tag in front of it
+    if tier == "quick":
+        behs = printerout.behaviours(check, 2) + printerout.behaviours(check, 3, cars=("src", "syn"))
+    else:
+        behs = printerout.behaviours(check, 3) + printerout.behaviours(check, 4, kinds=("php", "html"), cars=("src", "syn"), timeout=3000)
+    for b, want, got in printerout.replay(check, wp, behs):
+        check.violation(printerout.classify(b, want, got), {"behaviour": b, "expected_writes": want, "observed_writes": got})
+    check.count(len(behs))
+    check.cov["output_stage_behaviours"] = len(behs)
+    check.cov["traces_validated_against_impl"] += len(behs)
+    check.sample({"direction": "spec->impl", "output_stage": behs[len(behs) // 2]})
     check.cov["kinds_covered"] = len(kinds)
     check.cov["traces_validated_against_impl"] += len(inst)
     check.assumptions += ["NodeSchema.tla / Lexemes.tla (frozen, written from PHP's syntax)",
-                          "markers {#..#} never trigger the printer's automatic space"]
+                          "markers {#..#} never trigger the printer's automatic space",
+                          "PrinterOut.tla chunk shapes: first/last byte class, '<?' prefix, '?>' suffix, empty; carriers src/syn/val"]
     return check.finish({"exhaustive": True,
                          "rule": "every kind x (baseline all-present/all-absent with <=%d deviating slots) x list lengths 0..%d x separator "
-                                 "arrangements; distinct = distinct (kind, slot contents)" % (budget, maxlen)})
+                                 "arrangements; distinct = distinct (kind, slot contents); plus every PrinterOut.tla chunk sequence up to the bound" % (budget, maxlen)})
